@@ -497,7 +497,7 @@ pub fn parts(id: &'static str, tier: Tier) -> Vec<Part<Case>> {
 
 pub fn assumptions(id: &str) -> Vec<String> {
     vec![
-        "valid-history domain enforced by construction: volumes >= 1, limit prices on the grid strictly inside (0, 2^32-1) (except in C12's arbitrary-price generator), per-side created volume budget < 2^32, monotone clock, (LEVELS-1)*tick < 2^32".to_string(),
+        "valid-history domain enforced by construction: volumes >= 1, limit prices on the grid strictly inside (0, 2^32-1) (except in C12's arbitrary-price generator), per-side resting volume and traded-volume counter < 2^32 at every moment (computed from the observed state), monotone clock; tick sizes 1..10 (dense) and up to 2^29 (wide), every LEVELS in 1..24".to_string(),
         if id == "C05" { "equal queue timestamps allowed (no clock discipline)".to_string() } else { "clock discipline: Advance(1) inserted before an operation that could queue at a (side, price, time) possibly already used".to_string() },
         "trusted base: the harness's reference engine / recomputation code, rustc, proptest".to_string(),
     ]
